@@ -53,7 +53,9 @@ Exprs == Atoms \cup D1 \cup D2 \cup Cases \cup Guarded
 
 NQR == ColP(<<"n", "q", "r">>)
 Items == {Star, Item(A, ""), Item(A, "x"), Item(NP, ""), Item(NP, "a"), Item(M, ""), Item(Bin("+", A, LN(1)), "b"), Item(NQR, ""),
-          Item(Bin("*", B, LN(2)), "y"), Item(LS(<<104, 105>>), "s")}
+          Item(Bin("*", B, LN(2)), "y"), Item(LS(<<104, 105>>), "s"),
+          \* white space inside a literal and inside a quoted alias is content: two blanks, a tab, a line break
+          Item(LS(<<120, 32, 32, 121, 10, 122, 9, 9>>), "w"), Item(A, "a  b")}
 Lists == SeqsFromTo(Items, 1, 3)
 \* FUSE: the keys of an object blended into the row (n = {p, q}), under a prefix when the item has an alias; items before
 \* and after it that carry one of those names (later wins); FUSE of a missing column is an ordinary NULL column
